@@ -34,6 +34,7 @@ type tnode struct {
 	Size     uint64
 	Path     []string
 	Aliases  []string // names that are not entries but share a whole hash with one (hamt only)
+	Stamp    *int64   // if set, the root block is rewritten with this modification time (UnixFS 1.5)
 }
 
 func (n *tnode) isDir() bool { return n.Kind != "file" }
@@ -171,6 +172,52 @@ func genTree(r *rand.Rand, depth int, root bool) *tnode {
 // buildTree stores the tree bottom-up with the library's builders and fills in
 // Cid/Size/Path.
 func buildTree(st *store.Store, n *tnode, path []string) error {
+	if err := buildTreeNode(st, n, path); err != nil {
+		return err
+	}
+	if n.Stamp != nil {
+		restamp(st, n)
+	}
+	return nil
+}
+
+// restamp rewrites the root block of n (if it is a dag-pb block with decodable UnixFS data) so that it
+// carries a modification time, as a UnixFS 1.5 writer would have stored it.
+func restamp(st *store.Store, n *tnode) {
+	blk, ok := st.Get(n.Cid)
+	if !ok {
+		return
+	}
+	nd, err := oracle.Decode(n.Cid, blk)
+	if err != nil || !nd.IsPB || nd.FS == nil {
+		return
+	}
+	fs := *nd.FS
+	secs := *n.Stamp
+	fs.Mtime = &pb.IPFSTimestamp{Seconds: &secs}
+	if secs%2 != 0 {
+		ns := uint32(500000000)
+		fs.Mtime.Nanos = &ns
+	}
+	var links []pbLinkSpec
+	for _, l := range nd.Links {
+		ls := pbLinkSpec{Cid: l.Cid}
+		if l.HasName {
+			nm := l.Name
+			ls.Name = &nm
+		}
+		if l.HasSize {
+			sz := l.Tsize
+			ls.Tsize = &sz
+		}
+		links = append(links, ls)
+	}
+	nb := encodePB(mustMarshal(&fs), true, links)
+	n.Cid = st.PutBlock(int(n.Cid.Version()), cid.DagProtobuf, nb)
+	n.Size = n.Size - uint64(len(blk)) + uint64(len(nb))
+}
+
+func buildTreeNode(st *store.Store, n *tnode, path []string) error {
 	n.Path = append([]string(nil), path...)
 	ls := st.LinkSystem(false)
 	if n.Kind == "file" && strings.HasPrefix(n.Writer, "hand-") {
